@@ -237,6 +237,8 @@ func quote(s string) string {
 // Text is the Puppet literal (text route).
 func (v RV) Text() string {
 	switch v.K {
+	case "":
+		return "<none>"
 	case "undef":
 		return "undef"
 	case "default":
